@@ -301,8 +301,9 @@ theorem mkRec_fields (name : Bytes) (o : FileOptions) (raw : Option (UInt32 × U
 /-- a toy codec: "compression" appends a marker byte, decoding strips it -/
 def wext1 : WExt := ⟨fun _ _ b => b ++ [0xEE], fun _ b => b⟩
 def rext1 : Ext :=
-  ⟨fun m b => if m = .stored then .ok b else .ok b.dropLast, fun _ _ _ => .ok none,
-   fun _ _ _ _ => .ok none⟩
+  { decode := fun m b => if m = .stored then .ok b else .ok b.dropLast
+    zipCrypto := fun _ _ _ => .ok none
+    aes := fun _ _ _ _ => .ok none }
 
 /-- the source entry of a raw copy (Deflated, 3 stored bytes) -/
 def srcRec : FileData :=
